@@ -104,6 +104,21 @@ fn scenario(name: &str) -> String {
                 answer(&mut first[0]);
                 out.push(format!("after-late-fire={}", outcomes(&mut cmd)));
             }
+            "clearpendinglatefire" => {
+                // cleared while pending; the original timer fires BEFORE the shell has answered the Clear: still no outcome
+                // until the Clear is answered, and then it is Cleared
+                let mut first = sh.collect(&mut cmd);
+                handle.clear();
+                let mut second = sh.collect(&mut cmd);
+                answer(&mut first[0]);
+                out.push(format!("after-late-fire={}", outcomes(&mut cmd)));
+                let more = sh.collect(&mut cmd);
+                out.push(format!("more-requests={}", more.len()));
+                for r in second.iter_mut() {
+                    answer(r);
+                }
+                out.push(outcomes(&mut cmd));
+            }
             "drophandle" => {
                 let mut reqs = sh.collect(&mut cmd);
                 drop(handle);
@@ -153,6 +168,8 @@ fn main() {
         ("at-clearfirst", "->requests=0 0:cleared done=true"),
         ("after-clearpending", "after(t0),clear(t0)->outcome-before-answer= 0:cleared after-late-fire= done=true"),
         ("at-clearpending", "at(t0),clear(t0)->outcome-before-answer= 0:cleared after-late-fire= done=true"),
+        ("after-clearpendinglatefire", "after(t0),clear(t0)->after-late-fire= more-requests=0 0:cleared done=true"),
+        ("at-clearpendinglatefire", "at(t0),clear(t0)->after-late-fire= more-requests=0 0:cleared done=true"),
         ("after-drophandle", "after(t0)->extra=0 0:completed done=true"),
         ("after-firethenclear", "after(t0)->0:completed late-requests=0 done=true"),
         ("after-two", "after(t0),after(t1),clear(t1)->0:completed,1:cleared done=true"),
